@@ -228,8 +228,11 @@ DoStopKill(s, i) ==
                              !.skDone = TRUE, !.doneBy = ReqOf(s, i), !.grand = FALSE,
                              !.child = IF s.child = "running" THEN "exiting" ELSE @,
                              !.how = IF s.child = "running" THEN "sig" ELSE @]
-         IN \* a child that was told to exit may still be there for the SIGKILL to end it
-            IF s.child = "exiting" /\ s.how \in {"e0", "e3"} THEN {t, [t EXCEPT !.how = "sig"]} ELSE {t}
+             \* a child that was told to exit (or is about to fail at start) may still be there for the SIGKILL to end it
+             T1 == IF s.child = "exiting" /\ s.how \in {"e0", "e3", "e127"} THEN {t, [t EXCEPT !.how = "sig"]} ELSE {t}
+             \* a grandchild killed earlier stays in the group as a zombie until init reaps it: the kill may still "succeed"
+             linger == s.beh = "fork" /\ ~s.grand /\ s.child \in {"waited", "reaped"}
+         IN IF linger /\ ~GroupThere(s) THEN T1 \cup {[u EXCEPT !.hs[i].err = FALSE] : u \in T1} ELSE T1
     ELSE {}
 DoStopBody(s, i) ==
   IF IsBody(s, i, {"STOP"}) /\ s.kind = "basic"
